@@ -312,6 +312,8 @@ class DocstringParser(AbstractDocstringParser):
             elif annotation.canonical_path == "typing.Optional":
                 types.append(sds_types.NamedType(name="None", qname="builtins.None"))
                 return sds_types.UnionType(types=types)
+            elif annotation.canonical_path == "typing.Union":
+                return sds_types.UnionType(types=types)
             else:
                 return sds_types.NamedSequenceType(
                     name=annotation.canonical_name,
